@@ -14,8 +14,8 @@ RULE = ('a bystander stack (either data link layer) with 0-3 CAs in the claim st
         'with a scripted contender) and ECU-level listeners (unfiltered, integer, predicate); per run: single frames to all 256 destinations x {PDU1, PDU2} (complete '
         'sweep, 512 frames), complete foreign RTS/CTS sessions and a BAM between two reference nodes (FD sessions and multi-PG on J1939-22), and frames with every '
         'can.Message flag combination (11-bit, remote, error). non-trivial = the sweep ran with at least one listener registered; distinct = distinct scenario JSON')
-FAULT_COUNTERS = {'foreign transport frames between two other nodes': 'foreign_tp_frames', 'flagged frames (11-bit / remote / error)': 'flag_frames', 'single frames of the destination sweep': 'sweep_frames'}
-REQUIRED_PROBES = ['sweep_frames', 'deliveries_judged', 'foreign_tp_frames', 'flag_frames', 'addressless_cas', 'pdu2_frames']
+FAULT_COUNTERS = {'foreign transport frames between two other nodes': 'foreign_tp_frames', 'flagged frames (11-bit / remote / error)': 'flag_frames', 'sessions whose destination lost its only listener mid-transfer': 'orphaned_sessions', 'single frames of the destination sweep': 'sweep_frames'}
+REQUIRED_PROBES = ['sweep_frames', 'deliveries_judged', 'foreign_tp_frames', 'flag_frames', 'addressless_cas', 'pdu2_frames', 'orphaned_sessions']
 P1, P2, X = 0xA1, 0xA2, 0x7D
 STATE = {0: 'NONE', 1: 'WAIT_VETO', 2: 'NORMAL', 3: 'CANNOT_CLAIM'}
 
@@ -49,6 +49,7 @@ def generate(rng, tier, i):
            'pf1': rng.choice([0xD0, 0x00, 0xEF, 0xC3]), 'pf2': rng.choice([0xFE, 0xF0, 0xFF]), 'dp': rng.choice([0, 0, 1]),
            # listeners that were registered for an address and removed again before any traffic: the address is not owned
            'ghost_listeners': [a for a in (rng.randrange(0, 254), 0x10, 0xCA)[:rng.choice([0, 0, 1, 2])] if a not in used]}
+    scn['orphan'] = 0x5E not in used and rng.random() < 0.6
     return scn
 
 
@@ -250,6 +251,43 @@ def execute(scn, keep_log=False, hook=None):
     if ids != sorted(all_listeners()) or len(w.deliveries) - n0 != len(ids):
         viol.append({'clause': 'broadcast-not-to-every-listener', 'rank': 2, 'msg': 'BAM delivered to %s, listeners are %s (%d deliveries)' % (ids, sorted(all_listeners()), len(w.deliveries) - n0)})
     sim.run_for(0.5)
+    # ---- ownership that ends in the middle of a transfer: an RTS/CTS session towards an address owned by an ECU-level listener is
+    #      opened, the listener is removed after the first data packet, the remaining data packets are then addressed to nobody:
+    #      no answer (CTS / end-of-message acknowledge) in the name of that address and no delivery of the message
+    A = 0x5E
+    if scn.get('orphan') and not any(ca.device_address == A for ca in st.cas) and not any(isinstance(x, int) and x == A for x in cfg['ecu_listeners']):
+        got = []
+        owner = (lambda prio, pgn, sa, ts, data: got.append(bytes(bytearray(data))))
+        st.ecu.subscribe(owner, A)
+        body = payload(15, 21 if not fd else 180)
+        if not fd:
+            bus.send('X', rc.make_id(7, 0, rc.PF_TP_CM, A, X), True, bytes(rc.tp_rts(21, 3, 255, 0xD000)))
+            dts = [(rc.PF_TP_DT, bytes(rc.tp_dt(k + 1, body[7 * k:7 * k + 7]))) for k in range(3)]
+        else:
+            bus.send('X', rc.make_id(7, 0, rc.PF_FD_TP_CM, A, X), True, bytes(rc.fd_rts(0, 180, 3, 255, 0xD000)), True)
+            dts = [(rc.PF_FD_TP_DT, bytes(rc.fd_dt(0, k + 1, body[60 * k:60 * k + 60]))) for k in range(3)]
+            dts.append((rc.PF_FD_TP_CM, bytes(rc.fd_eoms(0, 180, 3, 0xD000))))
+        sim.run_for(0.003)
+        opened = any(fr.src == 'B' and rc.Id(fr.can_id).sa == A for fr in bus.frames)
+        bus.send('X', rc.make_id(7, 0, dts[0][0], A, X), True, dts[0][1], fd)
+        sim.run_for(0.003)
+        st.ecu.unsubscribe(owner)
+        n0 = len(w.deliveries)
+        nf = len(bus.frames)
+        for pf, d in dts[1:]:
+            bus.send('X', rc.make_id(7, 0, pf, A, X), True, d, fd)
+            sim.run_for(0.003)
+            stats['foreign_tp_frames'] += 1
+        sim.run_for(0.03)
+        stats['orphaned_sessions'] += int(opened)
+        answers = [fr for fr in bus.frames[nf:] if fr.src == 'B' and rc.Id(fr.can_id).sa == A and fr.data[0] != 255 and (not fd or (fr.data[0] & 0x0F) != 15)]
+        if answers:
+            viol.append({'clause': 'answered-for-unowned-address', 'rank': 1, 'feat': {'phase': 'ownership-ended-mid-transfer'},
+                         'msg': 'data packets for address %d, whose only listener had been removed, were answered with %s' % (A, answers[:2])})
+        if got and any(len(g) == len(body) for g in got) or any(d['data'] == bytes(body) for d in w.deliveries[n0:]):
+            viol.append({'clause': 'delivered-for-unowned-address', 'rank': 1, 'feat': {'phase': 'ownership-ended-mid-transfer'},
+                         'msg': 'the message completed after the listener for address %d had been removed was delivered' % A})
+        sim.run_for(1.6)       # the orphaned session times out
     viol += common.thread_violations(w)
     if not viol:
         viol += common.idle_violations(w)
